@@ -426,6 +426,10 @@ int main(int argc, char** argv)
     std::uint64_t count = a.u64("count", 2000);
     install_hooks();
     report.cases = count;
+    auto wd_alive = std::make_shared<std::atomic<bool>>(true);
+    start_progress_watchdog([] { return g_fn_ops.load() + g_snd_ops.load() + g_side_by_side.load() + g_fn_invocations.load(); }, 60, "C18:stuck:" + mode,
+        [] { return sf("%llu function operations, %llu sender operations, %llu pipelines so far; the operation in progress never returned", (unsigned long long) g_fn_ops.load(),
+                 (unsigned long long) g_snd_ops.load(), (unsigned long long) g_side_by_side.load()); }, wd_alive);
     {
         runtime rt(cfg);
         rng r(g_seed);
@@ -491,6 +495,7 @@ int main(int argc, char** argv)
         report.sample(sf("{\"mode\":\"%s\",\"count\":%lu,\"function_ops\":%lu,\"sender_ops\":%lu,\"pipelines\":%lu}", mode.c_str(), (unsigned long) count, (unsigned long) g_fn_ops.load(),
             (unsigned long) g_snd_ops.load(), (unsigned long) g_side_by_side.load()));
     }
+    *wd_alive = false;
     report.emit();
     return 0;
 }
